@@ -7,8 +7,8 @@ theorem canonicalName_mem (k : Key) (d : Dict) : canonicalName k d = k ∨ canon
   · exact Or.inl h
   · exact Or.inr h
 
-theorem updateLeaf_frame (prio : Priority) (old old' : Dict) (defs : Option Tree) (k k' : Key) (v : Tree)
-    (hne : k' ≠ k) (h : updateLeaf prio old defs k v = .ok old') : dget old' k' = dget old k' := by
+theorem updateLeaf_frame (prio : Priority) (old old' : Dict) (defs : Option Tree) (k dk k' : Key) (v : Tree)
+    (hne : k' ≠ k) (h : updateLeaf prio old defs k dk v = .ok old') : dget old' k' = dget old k' := by
   unfold updateLeaf at h
   split at h
   · simp at h; subst h; exact dget_dset_other _ _ _ _ hne
@@ -24,14 +24,14 @@ theorem updateLeaf_frame (prio : Priority) (old old' : Dict) (defs : Option Tree
       · simp at h; subst h; rfl
 
 theorem update_frame (env : Env) (prio : Priority) (k' : Key) :
-    ∀ (new : List (Key × Tree)) (old : Dict) (defs : Option Tree),
+    ∀ (new : List (Key × Tree)) (nested : Bool) (old : Dict) (defs : Option Tree),
       (∀ kv ∈ new, kv.1 ≠ k' ∧ altKey kv.1 ≠ k') →
-      dget (updateP env prio old defs new).1 k' = dget old k' := by
+      dget (updateP env prio nested old defs new).1 k' = dget old k' := by
   intro new
   induction new with
-  | nil => intro old defs _; simp [updateP]
+  | nil => intro nested old defs _; simp [updateP]
   | cons kv rest ih =>
-    intro old defs h
+    intro nested old defs h
     obtain ⟨k0, v⟩ := kv
     have hk0 := h (k0, v) (by simp)
     have hrest : ∀ kv ∈ rest, kv.1 ≠ k' ∧ altKey kv.1 ≠ k' := fun kv hkv => h kv (by simp [hkv])
@@ -44,27 +44,27 @@ theorem update_frame (env : Env) (prio : Priority) (k' : Key) :
       rw [updateP]
       split
       · rfl
-      · have tail : ∀ (old1 : Dict) (cur : Dict), dget old1 k' = dget old k' →
-            dget (match defaultsGet defs (canonicalName k0 old) with
+      · have tail : ∀ (old1 : Dict) (cur : Dict) (dk : Key), dget old1 k' = dget old k' →
+            dget (match defaultsGet defs dk with
               | Except.error e => (old1, some e)
               | Except.ok sd =>
-                match (updateP env prio cur sd sub).snd with
-                | some e => (dset old1 (canonicalName k0 old) (Tree.node (updateP env prio cur sd sub).fst), some e)
-                | none => updateP env prio (dset old1 (canonicalName k0 old) (Tree.node (updateP env prio cur sd sub).fst)) defs rest).fst k'
+                match (updateP env prio true cur sd sub).snd with
+                | some e => (dset old1 (canonicalName k0 old) (Tree.node (updateP env prio true cur sd sub).fst), some e)
+                | none => updateP env prio nested (dset old1 (canonicalName k0 old) (Tree.node (updateP env prio true cur sd sub).fst)) defs rest).fst k'
               = dget old k' := by
-          intro old1 cur hp1
+          intro old1 cur dk hp1
           split
           · exact hp1
           · split
             · simp [dget_dset_other _ _ _ _ hne, hp1]
-            · rw [ih _ _ hrest]; simp [dget_dset_other _ _ _ _ hne, hp1]
+            · rw [ih _ _ _ hrest]; simp [dget_dset_other _ _ _ _ hne, hp1]
         simp only []
         rcases hg : dget old (canonicalName k0 old) with _ | t
         · simp only []
-          exact tail _ _ (by simp [dget_dset_other _ _ _ _ hne])
+          exact tail _ _ _ (by simp [dget_dset_other _ _ _ _ hne])
         · cases t with
-          | leaf a => simp only []; exact tail _ _ (by simp [dget_dset_other _ _ _ _ hne])
-          | node cur => simp only []; exact tail _ _ rfl
+          | leaf a => simp only []; exact tail _ _ _ (by simp [dget_dset_other _ _ _ _ hne])
+          | node cur => simp only []; exact tail _ _ _ rfl
     | leaf a =>
       rw [updateP]
       split
@@ -73,8 +73,8 @@ theorem update_frame (env : Env) (prio : Priority) (k' : Key) :
         split
         · rfl
         · rename_i old' hl
-          rw [ih _ _ hrest]
-          exact updateLeaf_frame _ _ _ _ _ _ _ hne hl
+          rw [ih _ _ _ hrest]
+          exact updateLeaf_frame _ _ _ _ _ _ _ _ hne hl
 
 theorem normaliseTop_keys (env : Env) : ∀ (new new' : List (Key × Tree)), normaliseTop env new = .ok new' →
     new'.map (·.1) = new.map (·.1) := by
